@@ -258,11 +258,17 @@ func (bs *BlindSignature) fromBytes(bytes []byte, c *math.Curve) error {
 	bs.a = make([]*math.G1, len(rbs.A))
 	for i := 0; i < len(rbs.A); i++ {
 		bs.a[i], err = c.NewG1FromBytes(rbs.A[i])
+		if err != nil {
+			return err
+		}
 	}
 
 	bs.b = make([]*math.G1, len(rbs.B))
 	for i := 0; i < len(rbs.B); i++ {
 		bs.b[i], err = c.NewG1FromBytes(rbs.B[i])
+		if err != nil {
+			return err
+		}
 	}
 
 	return nil
@@ -433,6 +439,10 @@ func (sigPoK *SigPoK) fromBytes(c *math.Curve, bytes []byte) error {
 	var rspok RawSigPok
 	if _, err := asn1.Unmarshal(bytes, &rspok); err != nil {
 		return fmt.Errorf("malformed proof of signature knowledge: %v", err)
+	}
+
+	if len(rspok.Data) != 5 {
+		return fmt.Errorf("malformed proof of signature knowledge: expected 5 elements but got %d", len(rspok.Data))
 	}
 
 	sigPoK.ψ = PoKofSignaturePoCorrectForm{}
@@ -717,6 +727,10 @@ func (ξ *BlindCorrectFormProof) Bytes() []byte {
 }
 
 func (ξ *BlindCorrectFormProof) Verify(c *math.Curve, n int, a, b []*math.G1, cm *math.G1, g *math.G1, g0 *math.G1, h *math.G1, u *math.G1, gs []*math.G1) error {
+	if len(ξ.x) != n || len(ξ.y) != n || len(ξ.d) != n || len(ξ.f) != n || len(a) != n || len(b) != n {
+		return fmt.Errorf("blind signature and its proof must have %d components each", n)
+	}
+
 	digest := randomOracleForBlindingProof(n, ξ.d, ξ.f, ξ.s, a, b, cm, g, g0, h, u, gs)
 	e := c.HashToZr(digest)
 
@@ -811,6 +825,9 @@ func (ψ *PoKofSignaturePoCorrectForm) Bytes() []byte {
 }
 
 func (ψ *PoKofSignaturePoCorrectForm) Verify(c *math.Curve, ν, hε *math.G1, g2, X, κ *math.G2, Y []*math.G2) error {
+	if len(ψ.x) > len(Y) {
+		return fmt.Errorf("proof has %d responses but the public key has only %d components", len(ψ.x), len(Y))
+	}
 
 	digest := randomOracleForPoKofSignature(ψ.Γ, ψ.Φ, ν, hε, g2, X, κ, Y)
 	e := c.HashToZr(digest)
